@@ -81,7 +81,7 @@ def play(repo, cls, add_func, names, otypes, hist):
     def set_sp(me_):
         me_.attrs["_sp"] = Tok("symbols-of-lists-%d" % world["lists"])     # the symbol order is a function of the current state / parameter lists
     summ = {"SC.compileExprAndFormat": compile_, "Model._getEvalParam": eval_param, "Model.set_sp": set_sp,
-            "types.MethodType": lambda f, o: ("boundclosure", f, o), "functools.partial": lambda f, *a: ("boundclosure", f, a[0]) if len(a) == 1 else None,
+            "types.MethodType": lambda f, o: ("boundclosure", f, o), "MethodType": lambda f, o: ("boundclosure", f, o), "functools.partial": lambda f, *a: ("boundclosure", f, a[0]) if len(a) == 1 else None,
             "print": lambda *a, **k: None}
 
     def make_gen(nm):
